@@ -3,16 +3,19 @@ import astq
 from rules import a64hsem, aes, cgsize, decode, driver, dsinit, jitcross, membound, rv64, rvhsem, sshash, x86hsem
 
 LEVEL = 'other'
-TECHNIQUE = 'max-plus abstract interpretation of the x86 emitter against the assembled fragment sizes, mask-set and typestate rules on every scratchpad address of the interpreter, interval arithmetic on dataset/cache indices, constant agreement C++ vs .S'
+TECHNIQUE = ('max-plus abstract interpretation of the x86 emitter against the assembled fragment sizes, mask-set and typestate rules on every scratchpad address of the interpreter, interval arithmetic on dataset/cache indices, constant agreement C++ vs .S'
+         '; symbolic translation validation of the memory-form handlers and ISTORE of the three JIT back-ends (emitted code decoded and interpreted on terms with a symbolic scratchpad base)')
 CLAIM = ('Decides statically for every program word, configuration block and register content: each interpreter scratchpad address is formed by masking with one of three in-range masks; '
          'loop addresses are masked before every use; dataset and cache line indices stay inside their allocations (interval arithmetic on the configured sizes); the worst-case x86 code '
          'position (384 x longest encoding + soft-AES tail) never reaches the SuperscalarHash routine and the longest SuperscalarHash never reaches the epilogue; every copy into the code buffer is accounted '
          'for; layout constants shared with the .S file agree; the hashing API passes exactly (input, inputSize) and 32 output bytes. Addresses formed inside hand-written asm and emitted code are trusted '
          '(their mask constants are cross-checked).'
          ' The same code-size bound is decided for the A64 back-end (per-instruction code + literals against the reserve of the assembled template) and the RV64 back-end (instruction area + largest handler path x RANDOMX_PROGRAM_MAX_SIZE + template tail <= buffer), and every RV64 IMUL_RCP literal is stored inside the 4 KiB pool where the emitted load reads it.'
-         ' BIND-EXCL (a light VM must ignore setDataset, else it reads the dataset object as a cache) and AES-COVER (the AES loops touch exactly the blocks of their buffer) are included.')
+         ' BIND-EXCL (a light VM must ignore setDataset, else it reads the dataset object as a cache) and AES-COVER (the AES loops touch exactly the blocks of their buffer) are included.'
+         ' Emitted code: for every memory-form integer instruction and ISTORE the x86, A64 and RV64 handlers access exactly scratchpad + ((reg + sext(imm32)) & mask) with an in-range mask, decided on the decoded instructions (X86- / A64- / RV-MEM-HSEM); a VM is re-bound whenever anything a bind captures differs (BIND-GUARD), so it never reads a cache it is no longer bound to.')
 LEVEL_NOTE = 'Trusted: clang AST; the assembled object of jit_compiler_x86_static.S reflects the fragments memcpy\'d at run time; SuperscalarProgram::getSize() <= SuperscalarMaxSize (rule SS-SIZE in C09).'
-EXPLANATION = 'MEM-MASKSET, MEM-ADDRFORM, MEM-SPADDR, MEM-DSBOUND, CG-SIZE-X86 (D-size), CG-LAYOUT, API-IO, B2-INBOUND. CG-SIZE-A64, CG-SIZE-RV64, RV-RCPPOOL. BIND-EXCL, AES-COVER.'
+EXPLANATION = ('MEM-MASKSET, MEM-ADDRFORM, MEM-SPADDR, MEM-DSBOUND, CG-SIZE-X86 (D-size), CG-LAYOUT, API-IO, B2-INBOUND. CG-SIZE-A64, CG-SIZE-RV64, RV-RCPPOOL. BIND-EXCL, AES-COVER.'
+         ' X86-/A64-/RV-MEM-HSEM, BIND-GUARD.')
 
 
 def run(ctx, R):
